@@ -34,7 +34,7 @@ Definition tiny_num (k : string) : N :=
   if is "EJECTION_BALANCE" then 16000000000 else if is "MIN_PER_EPOCH_CHURN_LIMIT" then 2 else
   if is "CHURN_LIMIT_QUOTIENT" then 32 else if is "MAX_PER_EPOCH_ACTIVATION_CHURN_LIMIT" then 4 else
   if is "SECONDS_PER_SLOT" then 6 else 1.
-Definition tiny_cfg : Config := config_of tiny_num (fun _ => [0; 0; 0; 1]).
+Definition tiny_cfg : Config := Eval vm_compute in config_of tiny_num (fun _ => [0; 0; 0; 1]).
 Definition tiny_env : Env :=
   mkEnv tiny_cfg (fun _ => repeat 0 32) (fun _ => repeat 0 32) (fun _ _ _ => true) (fun _ _ _ => true) (fun _ => repeat 0 48)
         (fun _ _ _ => true).
